@@ -31,7 +31,7 @@ ASSUMPTIONS = [
 ]
 NOT_COVERED = ['_parse_condition (string theory): exhaustive enumeration over comparators x literal shapes x names - bounded',
                'cache on/off equality (beyond: the slice cache is the run decomposition of the label vector - proved), chain metrics, chain positions, tabular exports - bounded stand-in',
-               'augmented-mode metrics (outside the unbounded units)']
+               'augmented-mode metrics: bounded stand-in only (histories with cache on and off against one reference)']
 
 NC = z3.Int('ncycles')
 OPS = {'==': 'equal', '!=': 'not_equal', '<': 'less', '<=': 'less_equal', '>': 'greater', '>=': 'greater_equal'}
@@ -206,6 +206,17 @@ def make_phase(r, n=None):
     return (r.rand() * 2 * np.pi + np.cumsum(2 * np.pi * f)) % (2 * np.pi)
 
 
+def make_phase_jumpy(r):
+    """phase ramps of abruptly changing length (5..40 samples per cycle, the first and last cycle truncated): short cycles right after long ones"""
+    parts = []
+    for q in range(int(r.randint(4, 12))):
+        m = int(r.choice([5, 6, 7, 8, 12, 24, 30, 40]))
+        parts.append(np.linspace(0, 2 * np.pi, m, endpoint=False) + np.pi / m)
+    ph = np.concatenate(parts)
+    a, b = int(r.randint(0, len(parts[0]))), int(r.randint(0, len(parts[-1])))
+    return ph[a:len(ph) - b]
+
+
 def ref_cycles(ph, step=1.5 * np.pi):
     n = len(ph)
     lab = -np.ones(n, dtype=int)
@@ -233,7 +244,7 @@ def apply_op(C, model, op, x):
     cv = model['cv']
     K = model['K']
     kind = op[0]
-    if kind in ('compute', 'add') and model.get('conds') and any(_cond_name(cn) == op[1] for cn in model['conds']):
+    if kind in ('compute', 'compute_aug', 'add') and model.get('conds') and any(_cond_name(cn) == op[1] for cn in model['conds']):
         # REPLACING a metric the current selection was made on leaves "the selected subset" ambiguous (the subset / chain vectors are
         # those of the pick, queries and exports re-evaluate the stored conditions): outside the property's scope - operation skipped
         return None
@@ -242,6 +253,20 @@ def apply_op(C, model, op, x):
         f = {'mean': np.mean, 'max': np.max, 'len': len, 'range': lambda v: float(np.max(v) - np.min(v))}[fn]
         C.compute_cycle_metric(name, x, f)
         model['metrics'][name] = np.array([float(f(x[cv == c])) for c in range(K)])
+    elif kind == 'compute_aug':
+        # augmented mode: the cycle plus the samples before it back to the closest trough on its left (the run of samples with phase >= 3pi/2
+        # that ends where the cycle starts); no sample below 3pi/2 anywhere on the left (the first cycle): no augmented cycle, NaN
+        name, fn = op[1], op[2]
+        f = {'mean': np.mean, 'max': np.max, 'len': len, 'range': lambda v: float(np.max(v) - np.min(v))}[fn]
+        C.compute_cycle_metric(name, x, f, mode='augmented')
+        ph = model['phase']
+        exp = np.full(K, np.nan)
+        for c in range(K):
+            idx = np.where(cv == c)[0]
+            below = np.where(ph[:idx[0]] < 1.5 * np.pi)[0]
+            if len(below):
+                exp[c] = float(f(x[below[-1] + 1:idx[-1] + 1]))
+        model['metrics'][name] = exp
     elif kind == 'add':
         name = op[1]
         vals = np.arange(K, dtype=float) * op[2]
@@ -358,7 +383,7 @@ def run_history(ph, x, ops, use_cache):
         C = emd.cycles.Cycles(ph, use_cache=use_cache)
         cv = ref_cycles(ph)
         K = int(cv.max() + 1)
-        model = {'cv': cv, 'K': K, 'metrics': {}, 'sv': None}
+        model = {'cv': cv, 'K': K, 'metrics': {}, 'sv': None, 'phase': np.asarray(ph, float)}
         good = []
         for c in range(K):
             seg = ph[cv == c]
@@ -384,8 +409,12 @@ def gen_ops(r, n):
     ops = []
     names = []
     for _ in range(n):
-        k = r.randint(0, 8)
-        if k == 0:
+        k = r.randint(0, 9)
+        if k == 8:
+            nm = 'g%d' % r.randint(0, 2)
+            ops.append(('compute_aug', nm, ['mean', 'max', 'len', 'range'][r.randint(0, 4)]))
+            names.append(nm)
+        elif k == 0:
             nm = 'm%d' % r.randint(0, 3)
             ops.append(('compute', nm, ['mean', 'max', 'len', 'range'][r.randint(0, 4)]))
             names.append(nm)
@@ -455,9 +484,9 @@ def refute(tier, seed, emit):
     r = rng(seed, 15)
     nh = 120 if tier == 'quick' else 15000
     maxops = 8 if tier == 'quick' else 12
-    emit.scope('%d seeded operation sequences of length 3..%d over {compute metric, add metric, timings, pick subset with 1-3 conditions over all six comparators, chain timings, export table (all / subset / conditions)} on containers from random phases, each run with the slice cache on and off, compared after every operation with a reference model' % (nh, maxops))
+    emit.scope('%d seeded operation sequences of length 3..%d over {compute metric (cycle and augmented mode), add metric, timings, pick subset with 1-3 conditions over all six comparators, chain timings, export table (all / subset / conditions)} on containers from random phases (smooth frequency drifts, and ramps of abruptly changing length), each run with the slice cache on and off, compared after every operation with a reference model' % (nh, maxops))
     for h in range(nh):
-        ph = make_phase(r)
+        ph = make_phase(r) if h % 3 else make_phase_jumpy(r)
         x = np.sin(ph) * (1 + 0.3 * r.randn(len(ph)))
         ops = gen_ops(r, int(r.randint(3, maxops + 1)))
         for uc in (True, False):
